@@ -7,6 +7,7 @@ import (
 
 	"go.nanomsg.org/mangos/v3"
 	"go.nanomsg.org/mangos/v3/internal/core"
+	_ "go.nanomsg.org/mangos/v3/transport/inproc"
 	"go.nanomsg.org/mangos/v3/vh/kinds"
 	"go.nanomsg.org/mangos/v3/vh/kit"
 	"go.nanomsg.org/mangos/v3/vh/vt"
@@ -28,6 +29,8 @@ func init() {
 			}
 		}
 		out = append(out,
+			&vexplore.Scenario{Name: "close-vs-dial-listen", Mode: "sched", Bound: b + 1, Reset: kit.ResetGlobals, Body: closeVsSetup},
+			&vexplore.Scenario{Name: "inproc-dial-waiting-vs-listener-close", Mode: "sched", Bound: b, Reset: kit.ResetGlobals, Body: inprocDialWaiting},
 			&vexplore.Scenario{Name: fmt.Sprintf("core-objects-hist-D%d", d), Mode: "hist", Reset: kit.ResetGlobals, Body: func() { coreHist(d) },
 				NeedCounters: []string{"census-clean", "closed-listener", "closed-dialer", "closed-pipe", "redial-pending-at-close", "refused-pipe"}},
 			&vexplore.Scenario{Name: "close-context-only", Mode: "enum", Reset: kit.ResetGlobals, Body: closeContextOnly},
@@ -372,3 +375,101 @@ func coreHist(depth int) {
 }
 
 func nextTimer() (time.Duration, bool) { return kit.NextTimer() }
+
+// closeVsSetup: Close runs while a Dial / Listen / OpenContext is in progress on the same socket.
+// Whatever the interleaving, once Close has returned nothing of the socket may stay active.
+func closeVsSetup() {
+	k := kinds.ByName([]string{"pair", "xpub", "req"}[kit.ChooseFree(3)])
+	op := kit.ChooseFree(5)
+	s, err := k.New()
+	if err != nil {
+		kit.Failf("setup", "NewSocket: %v", err)
+	}
+	_ = s.SetOption(mangos.OptionReconnectTime, 100*time.Millisecond)
+	dep := vt.Get("c10cs-d")
+	lep := vt.Get("c10cs-l")
+	names := []string{"Dial-sync-ok", "Dial-async-ok", "Dial-async-refused", "Listen", "OpenContext"}
+	oc := kit.Start(names[op], func() (interface{}, error) {
+		switch op {
+		case 0:
+			dep.Script(vt.DialOK)
+			return nil, s.Dial("vt://c10cs-d")
+		case 1:
+			dep.Script(vt.DialOK)
+			return nil, s.DialOptions("vt://c10cs-d", map[string]interface{}{mangos.OptionDialAsynch: true})
+		case 2:
+			dep.Script(vt.DialRefused)
+			return nil, s.DialOptions("vt://c10cs-d", map[string]interface{}{mangos.OptionDialAsynch: true})
+		case 3:
+			return nil, s.Listen("vt://c10cs-l")
+		}
+		_, err := s.OpenContext()
+		return nil, err
+	})
+	cc := kit.Start("Close", func() (interface{}, error) { return nil, s.Close() })
+	kit.Quiesce()
+	if !oc.Done() || !cc.Done() {
+		kit.Failf("close-vs-setup-blocked:"+names[op], "%s: %s done=%v, Close done=%v", k.Name, names[op], oc.Done(), cc.Done())
+	}
+	if op == 3 && lep.Listening() {
+		// Listen may win or lose the race, but a closed socket must not keep a bound address
+		kit.Failf("listener-left-open", "%s: Listen raced with Close and the address is still bound after both returned", k.Name)
+	}
+	nd := dep.NumDials()
+	kit.Sleep(time.Hour)
+	kit.Quiesce()
+	if dep.NumDials() != nd {
+		kit.Failf("dial-after-close", "%s: %s raced with Close: %d connection attempt(s) after both had returned", k.Name, names[op], dep.NumDials()-nd)
+	}
+	for _, ep := range []*vt.Endpoint{dep, lep} {
+		for i := 0; i < ep.NumPipes(); i++ {
+			if p := ep.PipeAt(i); p.Alive() {
+				kit.Failf("connection-left-open", "%s: %s raced with Close: connection %d of %s is still open", k.Name, names[op], i, ep.Name)
+			}
+		}
+	}
+	census(k.Name + ": " + names[op] + " || Close")
+	kit.Observe("%s %s dial=%s", k.Name, names[op], kit.ErrName(oc.Err))
+}
+
+// inprocDialWaiting: a Dial is waiting for the peer's accept loop (which is busy in its event
+// hook) when the listening socket is closed; the Dial has to return, nothing may stay blocked.
+func inprocDialWaiting() {
+	a, err := kinds.ByName("xpub").New()
+	if err != nil {
+		kit.Failf("setup", "NewSocket: %v", err)
+	}
+	release := make(chan struct{})
+	a.SetPipeEventHook(func(ev mangos.PipeEvent, p mangos.Pipe) {
+		if ev == mangos.PipeEventAttaching {
+			<-release // the accept loop is held here: no Accept is outstanding meanwhile
+		}
+	})
+	if err := a.Listen("inproc://c10-wait"); err != nil {
+		kit.Failf("setup", "Listen: %s", kit.ErrName(err))
+	}
+	b1, _ := kinds.ByName("sub").New()
+	b2, _ := kinds.ByName("sub").New()
+	d1 := kit.Start("Dial1", func() (interface{}, error) { return nil, b1.Dial("inproc://c10-wait") })
+	kit.Quiesce()
+	d2 := kit.Start("Dial2", func() (interface{}, error) { return nil, b2.Dial("inproc://c10-wait") })
+	kit.Quiesce()
+	if !d1.Done() || d2.Done() {
+		kit.Failf("setup", "expected the first Dial to be through and the second to wait: %v %v", d1.Done(), d2.Done())
+	}
+	cc := kit.Start("Close", func() (interface{}, error) { return nil, a.Close() })
+	kit.Quiesce()
+	close(release)
+	kit.Quiesce()
+	if !cc.Done() {
+		kit.Failf("close-blocked:inproc-listener", "Close of the listening socket did not return")
+	}
+	if !d2.Done() {
+		kit.Failf("dial-left-waiting", "a Dial that was waiting for the listener's accept loop is still blocked after the listening socket was closed")
+	}
+	kit.Must("Close", func() { _ = b1.Close(); _ = b2.Close() })
+	kit.Sleep(time.Hour)
+	kit.Quiesce()
+	census("inproc dial waiting vs listener close")
+	kit.Observe("d2=%s", kit.ErrName(d2.Err))
+}
